@@ -9,8 +9,8 @@ ID = 'C10'
 RULE = ('Hypothesis draws a domain (2-4 attrs, sizes 1-4), 1-3 structural-zero sets (on measured cliques, sub-cliques, '
         'unmeasured attribute groups, overlapping; occasionally an empty cell list) never covering a witness assignment, '
         '1-5 measurements generated from a dense positive table (so the data put mass on the declared cells), a solver per '
-        'call, iters in {1,20,200}, warm_start on/off and a history of 1-3 estimate calls over growing prefixes of the '
-        'measurement list. Oracle: a marginal cell all of whose joint cells are declared impossible must carry <= '
+        'call, iters in {1,20,200}, warm_start on/off and a history of 1-3 estimate calls over growing prefixes or arbitrary (changed, '
+        'shrunk) subsets of the measurement list. Oracle: a marginal cell all of whose joint cells are declared impossible must carry <= '
         '1e-60*total in project() on every attribute subset and in datavector(); every answer finite, >=0, sums to total; '
         'synthetic_data (round and sample) has no record in a declared cell. Non-trivial = the generating table has > '
         '0.1% of its mass on declared cells and a measurement touches a zero clique; distinct by sha1.')
@@ -25,8 +25,14 @@ def cases(draw, tier='quick'):
     case['zeros'] = draw(inf.zero_specs(attrs, shape, case['witness'], allow_empty=draw(st.integers(0, 9)) == 0))
     case['warm_start'] = draw(st.booleans())
     k = draw(st.integers(1, 3))
-    case['calls'] = [{'upto': draw(st.integers(1, max(1, len(case['meas'])))), 'solver': draw(st.sampled_from(['MD', 'RDA', 'IG']))} for _ in range(k)]
-    case['calls'][-1]['upto'] = len(case['meas'])
+    nm = len(case['meas'])
+    case['calls'] = []
+    for j in range(k):
+        if draw(st.booleans()):
+            sub = list(range(draw(st.integers(1, max(1, nm)))))           # growing prefix (AIM / MWEM style)
+        else:
+            sub = sorted(draw(st.lists(st.integers(0, nm - 1), min_size=1, max_size=nm, unique=True)))   # changed / shrunk list
+        case['calls'].append({'use': sub, 'solver': draw(st.sampled_from(['MD', 'RDA', 'IG']))})
     case['synth'] = {'rows': draw(st.sampled_from([7, 100])), 'seed': draw(st.integers(0, 2**31 - 1))}
     case['order_seed'] = draw(st.integers(0, 2**31 - 1))
     return case
@@ -48,7 +54,7 @@ def run_case(case):
     model = None
     sizes = dict(zip(attrs, shape))
     for call in case['calls']:
-        specs = case['meas'][:call['upto']]
+        specs = [case['meas'][i] for i in call['use']] if 'use' in call else case['meas'][:call['upto']]
         if call['solver'] in ('RDA', 'IG'):
             specs = [m for m in specs if int(np.prod([sizes[a] for a in m['proj']])) >= 2 and m['q']['kind'] != 'zero']
         meas = inf.expand(specs, attrs, shape, X)
@@ -90,18 +96,22 @@ def run_case(case):
 
 def finish(out, case, X, mask, tt):
     zattrs = set(a for z in case['zeros'] for a in z['clique'])
-    touched = any(set(m['proj']) & zattrs for m in case['meas'])
+    last = case['calls'][-1]
+    used = [case['meas'][i] for i in last['use']] if 'use' in last else case['meas'][:last['upto']]
+    touched = any(set(m['proj']) & zattrs for m in used)
     out.nontrivial = bool(np.any(mask)) and float(X[mask].sum()) > 1e-3 * float(tt) and touched
     solvers = sorted(set(c['solver'] for c in case['calls']))
     out.classes = ['last_solver:' + case['calls'][-1]['solver'], 'iters:%d' % case['iters'], 'calls:%d' % len(case['calls'])]
     if case['warm_start']: out.classes.append('warm_start')
     if any(not z['cells'] for z in case['zeros']): out.classes.append('empty_zero_list')
-    measured = [set(m['proj']) for m in case['meas']]
+    measured = [set(m['proj']) for m in used]
     for z in case['zeros']:
         s = set(z['clique'])
         if any(s == m for m in measured): out.classes.append('zero_on_measured_clique')
         elif any(s < m for m in measured): out.classes.append('zero_on_subclique')
         elif not any(s & m for m in measured): out.classes.append('zero_on_unmeasured_group')
+    if len(case['calls']) >= 2 and any(not any(set(m['proj']) <= set(u['proj']) for u in used) for c in case['calls'][:-1] for m in ([case['meas'][i] for i in c['use']] if 'use' in c else [])):
+        out.classes.append('shrunk_last_call')
     out.classes = sorted(set(out.classes))
     return out
 
